@@ -76,7 +76,11 @@ def gen_qstr(rng, rich=True):
         else:
             parts.append(" ")
     v = rng.choice(["", " "]).join(parts)
-    return {"t": "qstr", "v": v, "q": rng.choice(['"', "'"])}
+    out = {"t": "qstr", "v": v, "q": rng.choice(['"', "'"])}
+    if rich and rng.random() < 0.15:
+        # the same content written with numeric escapes (\xhh, \uhhhh, \Uhhhhhhhh) for characters outside printable ASCII
+        out["esc"] = rng.choice(["x", "u"])
+    return out
 
 
 USTR_CLASSES = ["word", "word", "sentence", "sentence-dot", "digit-leading", "path", "winpath", "url", "plusminus", "id-float-id", "pct", "ctrl-char", "bool-word", "multi-blank"]
@@ -186,10 +190,13 @@ def gen_program(rng, max_cmds=8, max_args=6, **kw):
 ESC = {"\\": "\\\\", "\n": "\\n", "\t": "\\t", "\r": "\\r"}
 
 
-def quote(s, q, raw_newline=False):
+def quote(s, q, raw_newline=False, esc=None):
     out = []
     for ch in s:
-        if ch == q:
+        if esc and (ord(ch) > 126 or (ord(ch) < 32 and ch not in "\n\t\r")):
+            o = ord(ch)
+            out.append("\\x%02x" % o if (o < 256 and esc == "x") else "\\u%04x" % o if o < 65536 else "\\U%08x" % o)
+        elif ch == q:
             out.append("\\" + q)
         elif ch == "\n" and raw_newline:
             out.append("\n")
@@ -244,7 +251,7 @@ class Renderer(object):
         if t in ("int", "float"):
             self.emit(v["text"])
         elif t == "qstr":
-            self.emit(quote(v["v"], v["q"], self.rawnl))
+            self.emit(quote(v["v"], v["q"], self.rawnl, v.get("esc")))
         elif t == "ustr":
             self.emit(v["v"])
         elif t == "list":
@@ -424,6 +431,8 @@ def value_feature(v):
             f.append("edge-other-quote")
         if "\n" in s or "\t" in s:
             f.append("ctrl")
+        if v.get("esc"):
+            f.append("numeric-escapes")
         return "qstr." + ("+".join(f) or "plain")
     if t == "float":
         return "float." + ("exp-nopoint" if "." not in v["text"] else "exp" if "e" in v["text"].lower() else "dec")
